@@ -933,6 +933,9 @@ func findtypeMode(enc *json.Encoder, targets []*target, seed int64, nscripts, nb
 		if err != nil {
 			return ftRes{Err: err.Error()}
 		}
+		if typ == nil {
+			return ftRes{OK: true, Type: "<nil>"} // FindType answered "found" without a type
+		}
 		r := ftRes{OK: true, Type: typ.String()}
 		if ht, ok := oracle.lookup(op.FQN); ok {
 			r.SameAsHost = ruleguard.VerifXtypesIdentical(typ, ht)
